@@ -1443,7 +1443,45 @@ func (sh *Shell) dispatch(name string, argv []Str) {
 		}
 		line := sh.Stdin[0]
 		sh.Stdin = sh.Stdin[1:]
-		sh.setVar(vn, line)
+		// read without -r: backslashes escape the next character, IFS white space is trimmed at both ends
+		u := line.Units()
+		for i, x := range u {
+			if x.B != nil {
+				h := B.Eq(x.B, B.BV('\\', 8))
+				if i == 0 || i == len(u)-1 {
+					h = B.Or(h, B.Eq(x.B, B.BV(' ', 8)), B.Eq(x.B, B.BV('\t', 8)))
+				}
+				if !h.IsFalse() {
+					sh.Hazards = append(sh.Hazards, Hazard{Cond: h, What: "read: backslash or leading/trailing blank in an input line"})
+				}
+			}
+		}
+		var kept []Unit
+		for i := 0; i < len(u); i++ {
+			if b, ok := concChar(u[i]); ok && b == '\\' {
+				i++
+				if i < len(u) {
+					kept = append(kept, u[i])
+				}
+				continue
+			}
+			kept = append(kept, u[i])
+		}
+		for len(kept) > 0 {
+			if b, ok := concChar(kept[0]); ok && (b == ' ' || b == '\t') {
+				kept = kept[1:]
+				continue
+			}
+			break
+		}
+		for len(kept) > 0 {
+			if b, ok := concChar(kept[len(kept)-1]); ok && (b == ' ' || b == '\t') {
+				kept = kept[:len(kept)-1]
+				continue
+			}
+			break
+		}
+		sh.setVar(vn, gosym.Concat(gosym.Str{Segs: append([]Unit(nil), kept...)}))
 		sh.Status = int64(0)
 	case "cat":
 		if len(argv) != 2 {
